@@ -368,13 +368,14 @@ def regression_cases(prop):
     return out
 
 
-def make_class(name, base_classes, body=None):
+def make_class(name, base_classes, body=None, meta=None):
     """type(name, bases, body); base lists that CPython rejects are truncated
     deterministically to the first base (construction, not rejection).
-    Returns (class, number of bases kept)."""
+    Returns (class, number of bases kept).  ``meta``: metaclass to use."""
     base_classes = tuple(base_classes)
+    mk = meta or type
     try:
-        return type(name, base_classes or (object,), dict(body or {})), \
+        return mk(name, base_classes or (object,), dict(body or {})), \
             len(base_classes)
     except TypeError:
-        return type(name, base_classes[:1], dict(body or {})), 1
+        return mk(name, base_classes[:1], dict(body or {})), 1
